@@ -11,6 +11,8 @@ import Hcl.Spec.YoFormat
 import Hcl.Model.Dump
 import Hcl.Spec.DumpFormat
 import Hcl.Model.Cli
+import Hcl.Model.Lexer
+import Hcl.Model.Parser
 
 /-! Line-protocol driver: one request S-expression per input line, one answer line per request.
     Answer format: `M <model result> ;; S <spec result>`. -/
@@ -374,6 +376,64 @@ def handleCli (fields : List SExp) : String :=
   let extra := if o == .finalState then s!" cycles={strField fields "cycles"} banner={strField fields "banner"}" else ""
   s!"M exit={e} out={((repr o).pretty.splitOn ".").getLast!}{extra} ;; S exit={specExit a}"
 
+def lexCls (l : List SExp) : Lexer.CharCls :=
+  let tbl : List (Nat × Bool × Bool × Bool) := l.filterMap fun e => match e with
+    | .list [.atom c, .atom a, .atom b, .atom d] => c.toNat?.map fun n => (n, a == "1", b == "1", d == "1")
+    | _ => none
+  let look (c : Char) : Option (Bool × Bool × Bool) := (tbl.find? (fun t => t.1 == c.toNat)).map (·.2)
+  { isWhitespace := fun c => if c.toNat < 128 then Lexer.asciiCls.isWhitespace c else (match look c with | some t => t.1 | none => false),
+    isAlphabetic := fun c => if c.toNat < 128 then Lexer.asciiCls.isAlphabetic c else (match look c with | some t => t.2.1 | none => false),
+    isAlphanumeric := fun c => if c.toNat < 128 then Lexer.asciiCls.isAlphanumeric c else (match look c with | some t => t.2.2 | none => false) }
+
+def showTok : Lexer.Tok → String
+  | .Constant v => s!"CONST:{v.bits}:{showWidth v.width}"
+  | .Identifier n => "ID:" ++ n
+  | t => ((repr t).pretty.splitOn ".").getLast!
+
+def showLexItem : Lexer.Item → String
+  | .tok s t e => s!"{s}:{showTok t}:{e}"
+  | .err (.lexical l) => s!"ERR:LexicalError:{l}"
+  | .err (.invalidConstant a b) => s!"ERR:InvalidConstant:{a}:{b}"
+  | .err (.unterminatedComment l) => s!"ERR:UnterminatedComment:{l}"
+
+def binOpName : BinOp → String
+  | .add => "add" | .sub => "sub" | .mul => "mul" | .div => "div" | .or => "or" | .xor => "xor" | .and => "and"
+  | .eq => "eq" | .ne => "ne" | .le => "le" | .ge => "ge" | .lt => "lt" | .gt => "gt" | .land => "land" | .lor => "lor"
+  | .shl => "shl" | .shr => "shr"
+
+def unOpName : UnOp → String
+  | .plus => "plus" | .neg => "neg" | .compl => "compl" | .not => "not"
+
+mutual
+partial def showPEx : Parser.PEx → String
+  | .const s e v => s!"(c {s} {e} {v.bits} {showWidth v.width})"
+  | .bin s e op l r => s!"(b {s} {e} {binOpName op} {showPEx l} {showPEx r})"
+  | .un s e op x => s!"(u {s} {e} {unOpName op} {showPEx x})"
+  | .mux s e opts => s!"(m {s} {e}{showPOpts opts})"
+  | .wire s e n => s!"(w {s} {e} {n})"
+  | .slice s e x lo hi => s!"(s {s} {e} {showPEx x} {lo} {hi})"
+  | .concat s e l r => s!"(k {s} {e} {showPEx l} {showPEx r})"
+  | .inSet s e x items => s!"(i {s} {e} {showPEx x}{showPExs items})"
+partial def showPOpts : Parser.POpts → String
+  | .nil => ""
+  | .cons c v rest => s!" ({showPEx c} {showPEx v})" ++ showPOpts rest
+partial def showPExs : Parser.PExs → String
+  | .nil => ""
+  | .cons x rest => " " ++ showPEx x ++ showPExs rest
+end
+
+def handleParse (fields : List SExp) : String :=
+  let cls := lexCls (field fields "cls")
+  let text : List Char := (field fields "text").filterMap fun e => e.nat?.map Char.ofNat
+  match Parser.parseExpr cls text with
+  | some x => "M " ++ showPEx x ++ " ;; S -"
+  | none => "M no-parse ;; S -"
+
+def handleLex (fields : List SExp) : String :=
+  let cls := lexCls (field fields "cls")
+  let text : List Char := (field fields "text").filterMap fun e => e.nat?.map Char.ofNat
+  "M " ++ " ".intercalate ((Lexer.lex cls text).map showLexItem) ++ " ;; S -"
+
 def handle (line : String) : String :=
   match SExp.parse line with
   | none => "bad-request unparsable"
@@ -387,6 +447,8 @@ def handle (line : String) : String :=
     | some ("dump", fields) => handleDump fields
     | some ("table", fields) => handleTable fields
     | some ("cli", fields) => handleCli fields
+    | some ("lex", fields) => handleLex fields
+    | some ("parse", fields) => handleParse fields
     | some ("trace", args) => handleTrace args
     | some (t, _) => s!"bad-request unknown-tag {t}"
     | none => "bad-request no-tag"
